@@ -7,8 +7,6 @@ Maps are functions `Int → Int → Rat` with explicit dimensions `h w`.
 -/
 namespace Model
 
-def irange (n : Int) : List Int := (List.range n.toNat).map (fun (k : Nat) => (k : Int))
-
 /-- which source index of the inverse FFT output lands at index `j` after the shift
 (`ifftshift` = roll by `-(n//2)`, `fftshift` = roll by `+(n//2)`) -/
 def shiftSrc (kind : String) (n j : Int) : Int :=
@@ -35,13 +33,6 @@ def argmaxFirst : List Rat → Nat
       | [] => bi
       | y :: t => if best < y then go y i (i + 1) t else go best bi (i + 1) t
     go x 0 1 t
-
-def flat (f : Int → Int → Rat) (h w : Int) : List Rat :=
-  (irange h).flatMap fun y => (irange w).map fun x => f y x
-
-def minList : List Rat → Rat
-  | [] => 0
-  | x :: t => t.foldl (fun a b => rmin a b) x
 
 structure EvalOut where
   cy : Int
